@@ -14,6 +14,7 @@
 From Coq Require Import List NArith ZArith Bool Permutation.
 From JV Require Import Msg CliModel CliLemmas CliInv CliProofs CliHist CliSend CliFed CliNoStop CliSendLog SameResultsCli SameResultsBridge.
 From JV Require Json Wire Bridge BridgeProofs.
+From JV Require JsonCompact.
 From JV Require Import Bytes QStr Query QueryProofs GetterMore HttpChan HttpChanProofs SameResults SameResultsDirect.
 Import ListNotations.
 Local Open Scope N_scope.
@@ -141,10 +142,11 @@ Theorem c19_getter_bytes_status : forall p perr o srv st bits,
 Proof. exact getter_reply_refines. Qed.
 Print Assumptions c19_getter_bytes_status.
 
-(* ALWAYS VALID JSON, for every parser result and every call result.  [srv_json srv]: compaction of a result
-   yields JSON; the data of an error object are JSON that fits one container deep (they arrived two deep in a
-   response record); json.Marshal of another error value yields JSON (encoding/json's contract).
-   [Json.valid] = json.Valid. *)
+(* ALWAYS VALID JSON, for every parser result and every call result, whatever the result text is.
+   [srv_json srv]: the data of an error object, if any, are one JSON value that fits one container deep (they
+   arrived two deep in a response record); json.Marshal of another Go error value yields JSON (encoding/json's
+   contract).  Nothing is assumed of a result: if json.Marshal(RawMessage) accepts it, what it writes is JSON
+   (c19_compact_valid).  [Json.valid] = json.Valid, nesting limit included. *)
 Theorem c19_getter_always_valid_json : forall p perr o srv st bits,
   srv_json srv -> (forall t, o = Some t -> Json.valid t = true) ->
   getter_reply p perr o srv = HJson st bits -> Json.valid bits = true.
@@ -152,7 +154,7 @@ Proof. exact getter_reply_valid. Qed.
 Print Assumptions c19_getter_always_valid_json.
 
 (* ... and the text/plain fallback is unreachable when every value to write marshals ([srv_marshals]: results and
-   error data are JSON, other errors marshal) and the parameters were marshalable (always, for ParseQuery/ParseBasic) *)
+   error data are valid JSON, other errors marshal) and the parameters were marshalable (always, for ParseQuery/ParseBasic) *)
 Theorem c19_getter_no_fallback : forall p perr o srv,
   srv_marshals srv -> (match p with PROk _ ps => params_marshalable ps = true | PRErr => True end) ->
   exists st bits, getter_reply p perr o srv = HJson st bits.
@@ -176,6 +178,17 @@ Theorem c19_getter_bytes_rules : forall r perr o srv,
   end.
 Proof. exact getter_bytes_rules. Qed.
 Print Assumptions c19_getter_bytes_rules.
+
+(* json.Compact / json.Marshal(json.RawMessage) (Json.compact: white space dropped; <, >, &, U+2028, U+2029
+   escaped inside strings) maps valid JSON to valid JSON, and one value at nesting depth d to one value at depth d *)
+Theorem c19_compact_valid : forall s q, Json.compact s = Some q -> Json.valid q = true /\ Json.tight_at 0 q = true.
+Proof. exact JsonCompact.compact_valid. Qed.
+Print Assumptions c19_compact_valid.
+
+Theorem c19_compact_tight : forall d s, Json.tight_at d s = true ->
+  exists q, Json.compact s = Some q /\ Json.tight_at d q = true.
+Proof. exact JsonCompact.compact_tight. Qed.
+Print Assumptions c19_compact_tight.
 
 (* every error object whose data fit is valid JSON; the 400 body needs no hypothesis at all *)
 Theorem c19_error_object_valid_json : forall e b,
